@@ -9,11 +9,11 @@ func init() {
 }
 
 type c06watch struct {
-	name   string
-	ch     <-chan struct{}
-	result func(txn ReadTxn) []obsItem // the query whose result the channel guards
-	before []obsItem
-	table  bool // table-wide watch: any change of the table
+	name            string
+	ch              <-chan struct{}
+	result          func(txn ReadTxn) []obsItem // the query whose result the channel guards
+	before          []obsItem
+	table           bool // table-wide watch: any change of the table
 	seenClosedRevOK bool
 }
 
